@@ -2,6 +2,7 @@
 # run every registered quick (or $1=thorough) check on the current /repo tree; print one line each
 tier=${1:-quick}
 cd "$(dirname "$0")/.."
+[ -x .venv/bin/python ] || bash bin/setup.sh >/dev/null 2>&1
 git -C /repo diff --quiet || { echo "/repo has uncommitted changes"; exit 9; }
 for c in $(.venv/bin/python -c "import json;print(' '.join(c['property_id'] for c in json.load(open('MANIFEST.json'))['checks']))"); do
   s=$(date +%s); out=$(bin/vcheck $c --tier $tier 2>&1 | grep -v "^E1002\|^W1002" | tail -1); echo "$(( $(date +%s) - s ))s $out"
